@@ -189,6 +189,12 @@ func e16RootCase(seed uint64, n int, handlerKind, closeAt, created string, overf
 				return
 			}
 			if closeAt == "before-ready" {
+				if n%2 == 1 {
+					for i := 0; i < 3; i++ {
+						g.mutate(rng, u)
+					}
+					g.barrier()
+				}
 				mon.Close()
 			}
 			if closeAt == "cache-stopped-before-ready" {
@@ -212,6 +218,15 @@ func e16RootCase(seed uint64, n int, handlerKind, closeAt, created string, overf
 				return
 			}
 			if closeAt == "publisher-before-ready" {
+				if n%2 == 1 {
+					// events reach the monitor's subscription although the publisher never
+					// becomes ready (a publisher outside the library might do that): still no
+					// callback, in particular none without OnInitialize
+					for i := 0; i < 3; i++ {
+						g.mutate(rng, u)
+					}
+					g.barrier()
+				}
 				g.root.Stop()
 				if !waitCh(mon.Done(), virtBound) {
 					r.V("C16", "monitor-not-done", "publisher stopped before readiness but the monitor is not done")
